@@ -63,7 +63,7 @@ theorem rank_ret_shoot {s : Sys} (I : Inv s) (rest : List Ans) (hin : s.drv.gpuI
     have hLOK : c3_LOK s.drv.alloc r.pid r.host (migOrder s.drv.ngpu r.map) :=
       ⟨fun x hx => ⟨(hr.req x hx).1, (hr.req x hx).2, (hpg.found x hx).1, (hpg.found x hx).2⟩, hr.pagesNd, hpg.free⟩
     obtain ⟨a', new, heq, hN⟩ := c3_mkMigs s.w.sys r.pid r.pageSize r.host hr.host (migOrder s.drv.ngpu r.map)
-      { s.drv with shoot := 0, gpuIn := [] } I.nf hLOK I.frames
+      { s.drv with shoot := 0, gpuIn := [] } I.nf hLOK I.frames I.rel.ranges
       (by show s.drv.mig + _ < _; rw [c3]; have := hr.pagesLt; omega)
     rw [heq]
     have hl0 : new.length = (migOrder s.drv.ngpu r.map).length := by
